@@ -24,10 +24,23 @@ Step ==
           \cup (IF Ev.tok = "valid" /\ Ev.status = 401
                   THEN {V("harness_sanity_valid_token_rejected", [route |-> Ev.route])} ELSE {})
      /\ div' = div
+\* the premise of C13: the CHF registers with a scripted NRF through the real Server.Run, then an unauthenticated request
+\* is sent to the SBI listener over HTTP/2 cleartext
+Nrf ==
+  /\ Ev.action = "nrf"
+  /\ LET last == Ev.script[Len(Ev.script)] IN
+     /\ viol' = viol
+          \cup (IF last = "201t" /\ Ev.returned /\ ~(Ev.oauth /\ Ev.probe = 401)
+                  THEN {V("oauth_declared_by_nrf_is_enforced", [oauth |-> Ev.oauth, probe |-> Ev.probe])} ELSE {})
+     /\ div' = div
+          \cup (IF ~Ev.returned THEN {[trace |-> Ev.trace, step |-> Ev.seq, what |-> "registration did not return", script |-> Ev.script]} ELSE {})
+          \cup (IF Ev.returned /\ Ev.nfIdKind = "empty" THEN {[trace |-> Ev.trace, step |-> Ev.seq, what |-> "NfId empty after registration", script |-> Ev.script]} ELSE {})
+          \cup (IF Ev.returned /\ Ev.attempts # Len(Ev.script) THEN {[trace |-> Ev.trace, step |-> Ev.seq, what |-> "number of attempts differs from the model", script |-> Ev.script]} ELSE {})
+          \cup (IF Ev.returned /\ last # "201t" /\ Ev.probe = 401 THEN {[trace |-> Ev.trace, step |-> Ev.seq, what |-> "token required although the NRF did not declare OAuth2", script |-> Ev.script]} ELSE {})
 Finish == /\ l = Len(Trace) + 1
           /\ PrintT(<<"VF-RESULT", ToJson([consumed |-> l - 1, viol |-> viol, div |-> div])>>)
           /\ l' = l + 1 /\ UNCHANGED <<viol, div>>
 TInit == l = 1 /\ viol = {} /\ div = {}
-TNext == (l <= Len(Trace) /\ l' = l + 1 /\ Step) \/ Finish
+TNext == (l <= Len(Trace) /\ l' = l + 1 /\ (Step \/ Nrf)) \/ Finish
 TSpec == TInit /\ [][TNext]_tvars
 =============================================================================
